@@ -83,9 +83,8 @@ def _strict_rule(p, res, rname, funcs, want_pairs=None):
                 else:
                     res.ok('%s: %s' % (f.short, src_of(node)))
                 pairs.add((src_of(lo), src_of(hi)))
-            elif los or his:
-                # one-sided test on pos inside a containment callback
-                res.bad(F(rname, f, node, src_of(node), 'one-sided test of the position: containment needs a lower and an upper bound'))
+            # one-sided tests (e.g. the early-stop `pos < end`) are not containment decisions; a containment test that
+            # lost one side shows up as a missing (lower, upper) pair in the caller's comparison of bound sets
         seen_pairs[fq] = pairs
     return seen_pairs
 
